@@ -566,8 +566,13 @@ def prop_result(case):
         folder = rel_folder if case["target"] == "rel" else td / rel_folder
         target = folder / "result.yml" if case["path_kind"] == "file" else folder
         kwargs = {} if case["path_kind"] == "file" else {"format_name": "yml"}
+        vars_before = {lbl: sorted(map(str, ds.data_vars)) for lbl, ds in result.data.items()}
         with expect_ok("result.save"):
             paths = save_result(result, target, saving_options=options, **kwargs)
+        vars_after = {lbl: sorted(map(str, ds.data_vars)) for lbl, ds in result.data.items()}
+        check(vars_before == vars_after, "result.saving_changed_the_result_in_memory",
+              lambda: f"data variables of the caller's Result before / after save_result(data_filter={options.data_filter}): "
+                      f"{ {k: len(v) for k, v in vars_before.items()} } / { {k: len(v) for k, v in vars_after.items()} }")
         abs_folder = td / rel_folder
         for p in paths:
             check((Path(p) if Path(p).is_absolute() else td / p).is_file(), "result.save_paths", lambda: f"save_result reports {p!r} which does not exist")
